@@ -158,21 +158,38 @@ def raw_path(ctx, tier):
             for nm in g2.env.pred_names:
                 g2.env.preds.setdefault(nm, [])
         opt_model = gencore.model_only([(g.env, dcorp.inputs_for(g)) for g in og])
+        # the optimized translation with WHITESPACE / COMMENT matched atomically (the variant model of the known class WsNonAtomic, F2):
+        # where the optimized typed parser itself deviates from pest for THAT reason, the answer of this variant is pest's
+        ws_class_known = [k for k in load_known_findings() if k.get("status") == "known" and k.get("class") == "WsNonAtomic"]
+        vpairs = [(gencore.ws_variant_env(g2), dcorp.inputs_for(g2)) for g2 in og if gencore.ws_variant_env(g2) is not None]
+        opt_variant = gencore.model_only(vpairs) if (vpairs and ws_class_known) else {}
         ws_known = set()
+        n_both = 0
         for (g, sid, hx, tv, gv) in pending:
             of = opt_model.get((sid, hx))
             ov = None
             if of is not None:
                 ov = of["P"][:of["P"].index("=")] if of["P"].startswith("ok@") else "fail"
+            vf = opt_variant.get((sid, hx))
+            vv = None
+            if vf is not None:
+                vv = vf["P"][:vf["P"].index("=")] if vf["P"].startswith("ok@") else "fail"
             if known and ov == gv:
                 n_known += 1
                 ex = ex or (g.text, sid, hx, tv, gv)
             elif ov == tv:
                 ws_known.add(sid)          # same answer with the optimizer on: not an optimizer effect (C01's business)
+            elif known and ws_class_known and vv == gv:
+                # both known classes at once: the optimized parser is off pest only through WsNonAtomic (its atomic-trivia variant gives
+                # pest's answer), and the un-optimized path is off the optimized one as in optimizer_rewrote_rule (raw model exact)
+                n_known += 1
+                n_both += 1
+                ex = ex or (g.text, sid, hx, tv, gv)
             else:
                 ctx.violation("switching pest_optimizer changes the consumed offset of %s: optimizer off %s, pest %s" % (sid, tv, gv),
                               {"grammar": g.text, "rule": sid, "input_hex": hx, "optimizer_off": tv, "spec": gv, "optimizer_on_model": ov})
         ctx.coverage["raw_differences_also_present_with_optimizer_on"] = len(ws_known)
+        ctx.coverage["raw_differences_in_both_known_classes"] = n_both
     if n_known:
         ctx.known.append("pest_optimizer = false builds the parser from the un-optimized AST, whose repetition nodes treat the "
                          "inter-iteration skip differently from pest's rewritten rules [class optimizer_rewrote_rule: %d explored cases, "
